@@ -11,7 +11,7 @@ Open Scope Z_scope.
 Definition fuel : nat := Z.to_nat 60000.
 """
 
-ERR = {"ZeroDivisionError": "EZeroDiv", "IndexError": "EIndex", "KeyError": "EKey", "TypeError": "EType", "AssertionError": "EAssert",
+ERR = {"ZeroDivisionError": "EZeroDiv", "IndexError": "EIndex", "KeyError": "(EKey KReg)", "TypeError": "EType", "AssertionError": "EAssert",
        "CompileException": "EICE", "AttributeError": "EAttr", "ValueError": "EValue", "OverflowError": "EOverflow"}
 
 
